@@ -232,6 +232,24 @@ def p_events(recs):
     return out
 
 
+def reader_blocked_without_writer(info):
+    """The execution ends in a Deadlock in which a read request is parked although no write request is active or waiting:
+    whatever else went wrong, a reader is kept out by nobody (C12: readers are only blocked by writers)."""
+    if last_event(info) != "Deadlock":
+        return False
+    pending, holding = {}, {}
+    for ev in info["events"][:info["matched"]]:
+        t = ev.get("t")
+        if ev["e"] == "AcqCall":
+            pending[t] = ev["k"]
+        elif ev["e"] == "AcqRet":
+            pending.pop(t, None)
+            holding[t] = ev["k"]
+        elif ev["e"] == "RelCall":
+            holding.pop(t, None)
+    return "Read" in pending.values() and "Write" not in pending.values() and "Write" not in holding.values()
+
+
 def overtakes(info):
     """The refused event is a grant (AcqRet) to a request that was issued after another thread's request had already parked and
     that request is still waiting: first-come-first-served is broken whatever else is."""
@@ -376,7 +394,7 @@ def check(pid, tier, seed):
                 barrier = x not in nonbarrier
                 if last_event(info) == "Crash":
                     continue
-                if x in lrej and not (barrier and last_event(info) == "Deadlock"):
+                if x in lrej and not (barrier and last_event(info) == "Deadlock") and not reader_blocked_without_writer(info):
                     continue   # already wrong for the weaker contract: C01 / C02 / C03 own it
                 verdict.violation(sig_of("lock", info), {"mode": "eager", "matched": info["matched"], "next": info["next"]},
                                   {"component": "lock", "xid": x, "source": src[x], "events": info["events"]})
